@@ -1,12 +1,11 @@
-import Mathlib.Data.List.Sort
-open List
-#check @List.getD_eq_getElem?_getD
-#check @List.range'_append_1
-#check @List.range'_append
-#check @List.zip_append
-#check @List.take_left'
-#check @List.getElem_idxOf
-example (l : List Nat) (i d : Nat) (h : i < l.length) : l.getD i d = l[i] := by
-  simp [List.getD_eq_getElem?_getD, h]
-example (p a b : Nat) : List.range' p (a + b) = List.range' p a ++ List.range' (p + a) b := by
-  exact?
+import Model.Tensor
+open DV DV.Tensor
+def f0 : Tensor GaussInt := ⟨[2], [3], ⟨[2, 3], #[⟨1, 0⟩, ⟨0, 1⟩, ⟨2, 0⟩, ⟨0, 0⟩, ⟨1, -1⟩, ⟨3, 0⟩]⟩⟩
+def g0 : Tensor GaussInt := ⟨[3], [2, 2], ⟨[3, 2, 2],
+  #[⟨1, 0⟩, ⟨0, 0⟩, ⟨0, 1⟩, ⟨1, 0⟩, ⟨2, 0⟩, ⟨0, 0⟩, ⟨0, 0⟩, ⟨1, 1⟩, ⟨0, 0⟩, ⟨1, 0⟩, ⟨1, 0⟩, ⟨0, 0⟩]⟩⟩
+def s0 : Tensor GaussInt := ⟨[], [], ⟨[1], #[⟨0, 2⟩]⟩⟩
+#eval (thenCore f0 g0).entry ([1] ++ [1, 1])
+#eval (thenCore f0 g0).entry ([0] ++ [1, 1])
+#eval (f0.tensor s0).entry (([0] ++ []) ++ ([1] ++ []))
+#eval f0.dagger.entry ([1] ++ [0])
+#eval (thenCore f0 g0)
